@@ -517,8 +517,16 @@ func runLocalSync(t *testing.T, tp *simrt.Tape, prop string) hx.Result {
 		}
 	}
 	nSteps := tp.GenRange(3, 8)
+	forceSync := false // the next step is a sync (preview + forced run)
 	for step := 0; step < nSteps && res.HarnessErr == ""; step++ {
-		switch k := tp.Gen(14); {
+		k := tp.Gen(16)
+		if forceSync {
+			k, forceSync = 5, false
+		}
+		if k == 15 {
+			k = 13
+		}
+		switch {
 		case k == 0:
 			genCreate()
 		case k == 1 && len(w.repos) > 0:
@@ -566,6 +574,13 @@ func runLocalSync(t *testing.T, tp *simrt.Tape, prop string) hx.Result {
 			r := w.repos[tp.Gen(len(w.repos))]
 			w.commit(r, w.name(r))
 			history = append(history, fmt.Sprintf("commit in root%c/%s", 'A'+r.root, r.rel))
+		case k == 13 && len(w.repos) > 0:
+			// only mutable metadata changes (HEAD stays): the web URL recorded in the git config
+			r := w.repos[tp.Gen(len(w.repos))]
+			w.seq++
+			lsGit(w.path(r), "config", "zoekt.web-url", fmt.Sprintf("http://example.com/%s/%d", w.name(r), w.seq))
+			history = append(history, fmt.Sprintf("set zoekt.web-url in root%c/%s", 'A'+r.root, r.rel))
+			forceSync = tp.Gen(3) != 0
 		case k == 4:
 			// a shard that zoekt-local-sync did not create: no source recorded
 			os.MkdirAll(w.indexDir, 0o755)
@@ -582,7 +597,7 @@ func runLocalSync(t *testing.T, tp *simrt.Tape, prop string) hx.Result {
 				res.HarnessErr = "foreign shard: " + err.Error()
 			}
 			history = append(history, fmt.Sprintf("foreign shard %q without source appears", name))
-		case k <= 8:
+		case k <= 8 || k == 14:
 			// sync preview followed by the same command with -f
 			sel := pickRoots()
 			before := lsSnapshot(w.indexDir)
